@@ -95,6 +95,9 @@ Query ==
     \* between requests (after EndRequest was observed)
     Sc("q-between", pre \o << s0, UKq >> \o next, << <<>>, <<>> >>,
        << G(Len_(pre \o << s0 >>), "end", 1), G(Len_(pre \o << s0, UKq >>), "reply", 1) >>, TRUE, << ReadAllRet, ReadAllRet >>, << Propagate, Propagate >>),
+    \* in the middle of the Params stream (the reply is produced by the parse call that may also finish the preamble)
+    Sc("q-in-params", << IBegin(Own, 1, 1, 0), IParams(Own, 4, 0), GVq, IParams(Own, 0, 0), s3, s0 >>, << << PSpec(1, 1, 1, 1, 1) >> >>,
+       << G(Len_(<< IBegin(Own, 1, 1, 0), IParams(Own, 4, 0), GVq, IParams(Own, 0, 0) >>), "reply", 1) >>, TRUE, << ReadAllRet >>, << Propagate >>),
     \* right after Params
     Sc("q-after-params", pre \o << GVq, s3, s0 >>, << <<>> >>, << G(Len_(pre \o << GVq >>), "reply", 1) >>, TRUE, << ReadAllRet >>, << Propagate >>),
     \* mid-stream while the handler is blocked reading
